@@ -2,6 +2,8 @@ package props
 
 import (
 	"fmt"
+	"github.com/wokdav/gopki/generator/db"
+	"github.com/wokdav/gopki/generator/db/filesystem"
 	"os"
 	"strings"
 	"testing"
@@ -145,7 +147,7 @@ func buildC18(n int, iss []int, variant int) World {
 func TestC18(t *testing.T) {
 	r := core.Start(t, "C18")
 	defer r.Finish()
-	r.Rule = "(a) exhaustive: every issuer function on n <= 3 (quick) / n <= 5 (thorough) labelled entities, each entity having no issuer, any entity including itself, or an undefined name ((n+2)^n graphs), laid out over nested directories with config suffixes in mixed letter case and explicit or file-derived aliases (two layout variants per graph). (b) sampled: up to 6 entities with alias collisions (explicit/explicit, explicit/file name, file name/file name in different directories, same stem with different suffix in one directory), cycles hanging off valid trees, and bystander files (other suffixes, binary junk / lists / version-less YAML under config suffixes, stray PEM). explicit aliases containing blanks, slashes, dots and '../' (two aliases with the same last path element are distinct; the bare last element names nobody; so are aliases and issuer names that differ in a leading or trailing blank); leftover artifacts consisting of a cut-off or non-base64 hash line; files named after an artifact or configuration and lying next to it (<artifact>.tmp / ~ / .bak / .new / .lock / .old, .<artifact>.swp, <stem>.tmp, <stem>.crt, <config>.tmp). (c) the built command line on a native directory with a defective hierarchy and every spelling of the five flags, including all of them switched off, with and without artifacts of an earlier run: the command must exit non-zero and change nothing. Backends: in-memory, gopki MapFs, NativeFs (there also with some configs being symbolic links to files kept outside the directory). Oracle: graph analysis in the harness (duplicate alias, dangling issuer, cycle incl. self-loop) => the run must fail and the directory snapshot is unchanged; otherwise the run succeeds, exactly the files '<config path without extension>.pem' appear, issuer DNs match the configured issuer's subject, everything else is byte-identical. Non-trivial = defect hanging off an otherwise valid tree, or a valid forest spread over >= 2 directories; distinct by rendered tree."
+	r.Rule = "(a) exhaustive: every issuer function on n <= 3 (quick) / n <= 5 (thorough) labelled entities, each entity having no issuer, any entity including itself, or an undefined name ((n+2)^n graphs), laid out over nested directories with config suffixes in mixed letter case and explicit or file-derived aliases (two layout variants per graph). (b) sampled: up to 6 entities with alias collisions (explicit/explicit, explicit/file name, file name/file name in different directories, same stem with different suffix in one directory), cycles hanging off valid trees, and bystander files (other suffixes, binary junk / lists / version-less YAML under config suffixes, stray PEM). explicit aliases containing blanks, slashes, dots and '../' (two aliases with the same last path element are distinct; the bare last element names nobody; so are aliases and issuer names that differ in a leading or trailing blank); leftover artifacts consisting of a cut-off or non-base64 hash line; files named after an artifact or configuration and lying next to it (<artifact>.tmp / ~ / .bak / .new / .lock / .old, .<artifact>.swp, <stem>.tmp, <stem>.crt, <config>.tmp). (c) the built command line on a native directory with a defective hierarchy and every spelling of the five flags, including all of them switched off, with and without artifacts of an earlier run: the command must exit non-zero and change nothing. (d) one database object opened twice, with configurations that make the hierarchy defective (dangling issuer, self-loop, two-cycle, duplicate alias) appearing in between, optionally together with an entity moved under another issuer: the second pass refuses and writes nothing. Backends: in-memory, gopki MapFs, NativeFs (there also with some configs being symbolic links to files kept outside the directory). Oracle: graph analysis in the harness (duplicate alias, dangling issuer, cycle incl. self-loop) => the run must fail and the directory snapshot is unchanged; otherwise the run succeeds, exactly the files '<config path without extension>.pem' appear, issuer DNs match the configured issuer's subject, everything else is byte-identical. Non-trivial = defect hanging off an otherwise valid tree, or a valid forest spread over >= 2 directories; distinct by rendered tree."
 	r.Assumptions = []string{"two configs with the same stem in one directory but different explicit aliases are not generated (both map to one .pem; the property does not say who wins)"}
 	wrap := func(c c18Case) *core.Failure {
 		f, class := checkC18(c)
@@ -173,9 +175,30 @@ func TestC18(t *testing.T) {
 		r.Sample("class:"+class, map[string]any{"configs": c.W.Texts(), "bystanders": sortedKeys(c.W.Files)})
 		return f
 	}
+	// the same refusal at the command line, whatever the flags say: a defective hierarchy makes the command fail and nothing is written
+	wrapCLI := func(c c18CLI) *core.Failure {
+		f, class := checkC18CLI(c)
+		r.Case("", "cli:"+class, fmt.Sprintf("cli-flags:%05b", c.Flags))
+		r.Sample("cli:"+class, map[string]any{"configs": c.W.Texts(), "args": c.Args})
+		return f
+	}
+	core.Register(r, "cli", wrapCLI)
+	reopen := func(c c18Reopen) *core.Failure {
+		r.Case("", "session:defect-added-then-same-object-reopened:"+c.Defect)
+		return checkC18Reopen(c)
+	}
+	core.Register(r, "reopen", reopen)
 	core.Register(r, "graph", wrap)
 	if r.Replays() {
 		return
+	}
+	for k, defect := range []string{"dangling", "self-loop", "cycle", "duplicate-alias"} {
+		for _, reparent := range []bool{false, true} {
+			if r.Mine(k) {
+				c := c18Reopen{Defect: defect, Reparent: reparent}
+				r.Report("reopen", c, reopen(c))
+			}
+		}
 	}
 	maxN := r.Pick(3, 5)
 	idx := 0
@@ -345,14 +368,6 @@ func TestC18(t *testing.T) {
 	}
 	core.Rapid(r, "graph", r.Pick(1500, 300000), gen, wrap)
 
-	// the same refusal at the command line, whatever the flags say: a defective hierarchy makes the command fail and nothing is written
-	wrapCLI := func(c c18CLI) *core.Failure {
-		f, class := checkC18CLI(c)
-		r.Case("", "cli:"+class, fmt.Sprintf("cli-flags:%05b", c.Flags))
-		r.Sample("cli:"+class, map[string]any{"configs": c.W.Texts(), "args": c.Args})
-		return f
-	}
-	core.Register(r, "cli", wrapCLI)
 	genCLI := func(t *rapid.T) c18CLI {
 		n := rapid.IntRange(1, 4).Draw(t, "n")
 		iss := make([]int, n)
@@ -518,4 +533,71 @@ func checkC18CLI(c c18CLI) (*core.Failure, string) {
 		return core.Failf("C18/"+defect+"/cli-accepted", "the hierarchy has a %s, yet the command reports success: %s", defect, desc), defect
 	}
 	return nil, defect
+}
+
+// ---- one database object opened twice: between the two, configurations that make the hierarchy defective appear in the
+// directory (and, optionally, an existing entity is moved under another issuer). The second pass must refuse like a first one.
+
+type c18Reopen struct {
+	Defect   string // "dangling" | "self-loop" | "cycle" | "duplicate-alias"
+	Reparent bool
+}
+
+func checkC18Reopen(c c18Reopen) *core.Failure {
+	w := World{Ents: []core.Entity{{File: "root.yaml", Subject: []core.RDN{{Key: "CN", Value: "C18 reopen root"}}},
+		{File: "other.yaml", Subject: []core.RDN{{Key: "CN", Value: "C18 reopen other root"}}},
+		{File: "ca/mid.yaml", Subject: []core.RDN{{Key: "CN", Value: "C18 reopen mid"}}, Issuer: "root"},
+		{File: "ca/leaf.yaml", Subject: []core.RDN{{Key: "CN", Value: "C18 reopen leaf"}}, Issuer: "mid"}}}
+	d := w.Dir()
+	d.Tick(10)
+	dbase := filesystem.NewFilesystemDatabase(&core.MemFS{D: d})
+	pass := func() (err error, pan any) {
+		defer func() { pan = recover() }()
+		if err = dbase.Open(); err != nil {
+			return
+		}
+		defer dbase.Close()
+		var plan db.ChangeList
+		if plan, err = db.PlanBulkUpdate(dbase, db.UpdateStrategy(core.FlagDefault)); err == nil {
+			_, err = db.BulkUpdate(dbase, plan)
+		}
+		return
+	}
+	if err, pan := pass(); pan != nil || err != nil {
+		if pan != nil {
+			return core.Failf("C18/panic", "gopki panicked: %v", pan)
+		}
+		return core.Failf("C18/valid-hierarchy-refused", "first pass over a well-formed hierarchy failed: %v", err)
+	}
+	d.Tick(20)
+	add := func(e core.Entity) { w.Ents = append(w.Ents, e); d.Put(e.File, e.Render()) }
+	switch c.Defect {
+	case "dangling":
+		add(core.Entity{File: "new/orphan.yaml", Subject: []core.RDN{{Key: "CN", Value: "orphan"}}, Issuer: "nobody defines this"})
+	case "self-loop":
+		add(core.Entity{File: "new/narcissus.yaml", Subject: []core.RDN{{Key: "CN", Value: "self"}}, Issuer: "narcissus"})
+	case "cycle":
+		add(core.Entity{File: "new/ping.yaml", Subject: []core.RDN{{Key: "CN", Value: "ping"}}, Issuer: "pong"})
+		add(core.Entity{File: "new/pong.yaml", Subject: []core.RDN{{Key: "CN", Value: "pong"}}, Issuer: "ping"})
+	default:
+		add(core.Entity{File: "new/mid.yaml", Subject: []core.RDN{{Key: "CN", Value: "a second mid"}}, Issuer: "root"})
+	}
+	if c.Reparent {
+		leaf := w.Ent("leaf")
+		leaf.Issuer = "other"
+		d.Put(leaf.File, leaf.Render())
+	}
+	d.Tick(10)
+	before := d.Clone()
+	err, pan := pass()
+	if pan != nil {
+		return core.Failf("C18/panic", "gopki panicked on the second pass of the same database object: %v", pan)
+	}
+	if err == nil {
+		return core.Failf("C18/"+c.Defect+"/accepted", "a %s appeared in the directory; the same database object, opened again, planned and updated without error\n%v", c.Defect, w.Texts())
+	}
+	if diff := before.Diff(d); len(diff) > 0 {
+		return core.Failf("C18/"+c.Defect+"/files-written", "a %s appeared in the directory; the second pass of the same database object failed but wrote %v first", c.Defect, diff)
+	}
+	return nil
 }
